@@ -36,7 +36,7 @@ for c in checks:
     engines.setdefault(c["engine"], []).append(c["property_id"])
 doc = {
     "version": 1,
-    "setup_cmd": "cd lean && lake build IofloModel driver audit",
+    "setup_cmd": "/venv/bin/python harness/setup.py",
     "hooks": {"guard": "IOFLO_VERIF", "enable": "no build step: checks import ioflo from /repo's working tree with "
               "IOFLO_VERIF=1 in the environment; there are no hook commits",
               "baseline_off_cmd": "cd /repo && /venv/bin/python -m pytest -ra -q -p no:cacheprovider --timeout=900 "
